@@ -151,15 +151,28 @@ class C18(SeqProp):
         return dict(prev=None, tainted=False)
 
     def oracle_step(self, st, i, op, seq, out, exc, case):
-        # a failed call that changed the state (C09's findings) makes the record of calls
-        # unrepresentative of the state: such cases are not judged here
-        from harness.props.c09 import state
+        # a failed call that changed the state in one of the ways listed as C09 known
+        # findings makes the record of calls unrepresentative of the state: such cases
+        # are not judged here.  Any OTHER failed call that changes the state is not
+        # excused: the replays below will then differ and be reported.
+        from harness import common
+        from harness.props.c09 import classify, state, what_changed
 
+        if "c09_known" not in st:
+            st["c09_known"] = {f["signature"] for f in common.load_known_findings()["findings"] if f["property"] == "C09"}
         cur = state(seq)
-        if exc is not None and st["prev"] is not None and cur != st["prev"]:
-            st["tainted"] = True
-        if exc is not None and st["prev"] is None:
-            st["tainted"] = st["tainted"] or bool(seq._schedule)
+        prev = st["prev"]
+        if exc is not None:
+            if prev is None:
+                from pulser import Sequence
+
+                with warnings.catch_warnings():
+                    warnings.simplefilter("ignore")
+                    prev = state(Sequence(seq._register, seq.device))
+            if cur != prev:
+                ks, detail = what_changed(prev, cur)
+                if classify(op, exc, ks, detail, seq) in st["c09_known"]:
+                    st["tainted"] = True
         st["prev"] = cur
         return []
 
